@@ -69,7 +69,7 @@ def run(ctx):
                      "composite with at least one element or a scalar whose encoding has more than one byte")
     if sorted(versions_run) != sorted(codec.ALL_VERSIONS):
         raise tlc.MachineryError("not every protocol version was run: %s" % sorted(versions_run))
-    for need in ("null-field", "null-collection-element", "empty-collection", "aware-timestamp", "inet-mixed-text", "inet-canonical-text-with-dotted-quad", "wide-integer-64bit-and-beyond", "v2-16bit-collection", "depth-2", "depth-3"):
+    for need in ("null-field", "null-collection-element", "empty-collection", "aware-timestamp", "v2-unsigned-short-above-32767", "inet-mixed-text", "inet-canonical-text-with-dotted-quad", "wide-integer-64bit-and-beyond", "v2-16bit-collection", "depth-2", "depth-3"):
         if not feats.get(need):
             raise tlc.MachineryError("vacuity: no case with feature %s" % need)
     for k in ("scalar", "list", "set", "map", "tuple", "udt", "vector"):
